@@ -13,10 +13,10 @@ from . import twin
 
 ID = "C19"
 LEVEL = "exploration"
-RULE = ("Hypothesis-generated programs (scalar DAGs, bundles, entity programs, gated cells, layout-heavy programs with relays, "
-        "CSE bait) compiled several times under generated variations that must not matter: layout schedule (CP-SAT seed, worker "
+RULE = ("Hypothesis-generated programs (scalar DAGs, bundles, entity programs - half of them without the shared-network steering -, "
+        "gated cells, layout-heavy programs with relays, CSE bait, 'balanced loader' shapes whose sources enter two merges each) compiled several times under generated variations that must not matter: layout schedule (CP-SAT seed, worker "
         "count, deterministic time 0.001..0.5, injected strategy failures), a second compilation in the same process after an "
-        "unrelated program, and - for a sampled subset - fresh subprocesses of the real CLI with PYTHONHASHSEED in {0, 1, a "
+        "unrelated program, and - for a sampled subset and every balanced-loader case - fresh subprocesses of the real CLI with PYTHONHASHSEED in {0, 1, a "
         "generated value} and a different working directory. Oracle: equality of canonical forms (poles contracted; positions and "
         "numbering erased; entities labelled by prototype + full configuration + description, refined by 4 Weisfeiler-Lehman "
         "rounds over the network hypergraph; multiset of labels and of network signatures). Non-trivial: >= 3 combinators and the "
@@ -33,8 +33,12 @@ def budget(tier):
 @st.composite
 def strategy_(draw, tier):
     steer = known.active("shared-network-leak")
-    kind = draw(st.sampled_from(["scalar", "bundle", "entity", "memory", "spread", "spread", "cse"]))
-    if kind == "scalar":
+    kind = draw(st.sampled_from(["scalar", "bundle", "entity", "memory", "spread", "spread", "cse", "balanced"]))
+    if kind in ("bundle", "entity") and draw(st.booleans()):
+        steer = False  # sameness of two compilations is judged whether or not the circuit is right
+    if kind == "balanced":
+        prog = draw(gen.balanced_program())
+    elif kind == "scalar":
         prog = draw(gen.scalar_program(early_virtual=True, linear=steer, max_stmts=6))
     elif kind == "bundle":
         prog = draw(gen.bundle_program(steer=steer))
@@ -51,7 +55,7 @@ def strategy_(draw, tier):
     if tier == "quick":
         for sc in scheds:
             sc.pop("untouched", None)
-    sub = draw(st.integers(0, 15 if tier == "quick" else 5)) == 0
+    sub = draw(st.integers(0, 15 if tier == "quick" else 5)) == 0 or kind == "balanced"
     return {"kind": kind, "prog": prog, "other": other, "scheds": scheds, "optimize": draw(st.integers(0, 3)) != 0,
             "poles": draw(st.sampled_from([None, None, "medium"])), "subprocess": sub, "hashseed": draw(st.integers(2, 10**6))}
 
